@@ -21,7 +21,7 @@ from tools.gen import luagen
 LEVEL = "proof"
 MANIFEST = dict(
     category="proof",
-    text="Lean 4 theorems (31, no hypotheses on size) over a hand model of wrapl.Wrapl.wrap_function/do_function/wrap_functions "
+    text="Lean 4 theorems (33, no hypotheses on size) over a hand model of wrapl.Wrapl.wrap_function/do_function/wrap_functions "
          "(all_calls = one call per overload and per omitted-default prefix, by_count, the emitted switch/if-chain with its lua_type "
          "tests, pop indices, object index, result counts, luaL_Reg tables) and of what the emitted skeleton does on a Lua stack. "
          "dispatch_correct: for EVERY Lua name (one signature or many; free function, constructor, method, destructor), every "
@@ -29,7 +29,9 @@ MANIFEST = dict(
          "signature in declaration order whose Lua tags equal the arguments', with the stack values in order (methods: above the "
          "object at index 1) and that overload's own result count; otherwise luaL_error and no call (never_a_wrong_call, "
          "no_match_is_an_error, single_call_checked); overloads with equal tags: earlier wins, every distinguishable signature is "
-         "reached. Registration: every ast.name is gathered into one group/C function/table entry (groups_*), a Lua name reaches "
+         "reached; a class-pointer argument must be a userdata of the parameter's class, otherwise luaL_error before the library is "
+         "called and no fall-through to a later overload (wrong_class_argument_is_an_error); whether a parameter is defaulted "
+         "does not depend on the default's value (hasInit; 0, 0.0, false and \"\" are generated). Registration: every ast.name is gathered into one group/C function/table entry (groups_*), a Lua name reaches "
          "its own C function iff names in the table are distinct, otherwise the later entry wins (lookupReg_*, classRegs_reaches); "
          "objects: a constructor's userdata passes the object test of its own class only (method_on_constructed / "
          "method_on_foreign_object), any number of __gc calls runs the destructor once (gc_runs_destructor_once). No _partial "
@@ -43,12 +45,14 @@ MANIFEST = dict(
          "tools/ccheck/luaemu and an instrumented library, called with every offered signature (every arity from the first default "
          "to all parameters), one-tag-off variants at every position, wrong counts, random shapes, wrong/foreign/missing objects, "
          "__gc twice; verdict from the declarations in Python. Generated libraries: 0..6 parameters of mixed tags, defaults starting "
-         "at every position, std::string defaults, overloads incl. same-tag and void/non-void mixes, classes with overloaded "
+         "at every position, default values over zero/non-zero/empty for every kind, class-pointer arguments of the own and of "
+         "another wrapped class (right class, other class, userdata without metatable), overloads incl. same-tag and "
+         "void/non-void mixes, classes with overloaded "
          "constructors, const/static methods, a namespace. Trusted / modelled-not-verified: Lean kernel; the hand model; the "
          "emulator (written from the Lua 5.3 manual; no real Lua headers or interpreter installed); g++ (which C++ overload the "
          "emitted call selects is observed, not modelled); the JSON dump as the source of ast.name/LUA_name/LUA_name_impl. Not "
-         "covered: char* (no lua_statements entry), class-typed arguments (unimplemented in wrapl.py, open C05 finding), "
-         "intent(out) arguments; equal Lua names from different scopes are characterised (later wins), not prevented.",
+         "covered: char* (no lua_statements entry), class arguments by value/reference and classes wrapped by another library "
+         "(emitted, compiled by C05, not driven here), intent(out)/inout arguments; equal Lua names from different scopes are characterised (later wins), not prevented.",
     technique="Lean 4 proof (induction over the call list / registration list) + differential correspondence on emitted text, on "
               "registration tables and on the compiled binding driven through a C emulator of the Lua API",
 )
@@ -69,6 +73,8 @@ THEOREMS = {
         "Shroud.LuaDispatch.idxFrom_get",
         "Shroud.LuaDispatch.argument_read_from",
         "Shroud.LuaDispatch.zero_arg_calls_both_run",
+        "Shroud.LuaDispatch.wrong_class_argument_is_an_error",
+        "Shroud.LuaDispatch.argsOk_ctorValue",
         # registration and objects
         "Shroud.LuaDispatch.groups_cover",
         "Shroud.LuaDispatch.groups_names_nodup",
@@ -94,7 +100,8 @@ THEOREMS = {
 EMU = os.path.join(common.VERIF, "tools", "ccheck", "luaemu")
 TAGS = {"LUA_TNONE": "x", "LUA_TNIL": "z", "LUA_TBOOLEAN": "b", "LUA_TLIGHTUSERDATA": "l", "LUA_TNUMBER": "n",
         "LUA_TSTRING": "s", "LUA_TTABLE": "t", "LUA_TFUNCTION": "f", "LUA_TUSERDATA": "u", "LUA_TTHREAD": "h"}
-POPFN = {"int": "lua_tointeger", "float": "lua_tonumber", "bool": "lua_toboolean", "string": "lua_tostring"}
+POPFN = {"int": "lua_tointeger", "float": "lua_tonumber", "bool": "lua_toboolean", "string": "lua_tostring",
+         "object": "luaL_checkudata"}
 
 
 # ====================================================================== real Shroud
@@ -151,14 +158,20 @@ class ParseError(Exception):
     pass
 
 
-def parse_emit(blk, group):
+def parse_emit(blk, group, classes=()):
     """One do_function body -> dict(ov, self, pops, nres, pushes, popfn_ok, ncalls)."""
     names = {}
+    objcls = {}
+    # class-pointer argument: the userdata of the argument's class at the argument's index
+    for m in re.finditer(r'(\w+) = \(\((\w+) \*\) luaL_checkudata\( ?L, (\d+), "([^"]*)"\)\)->(\w+);', blk):
+        names[m.group(1)] = ("luaL_checkudata", int(m.group(3)))
+        cn = m.group(4).split(".")[0]
+        objcls[m.group(1)] = (classes.index(cn) + 1) if cn in classes else -1
     for m in re.finditer(r"(\w+) = (?:static_cast<[^>]*>\()?\s*(lua_to\w+)\( ?L, (\d+)\)", blk):
         names[m.group(1)] = (m.group(2), int(m.group(3)))
     for m in re.finditer(r"const std::string (\w+)\( ?(lua_to\w+)\( ?L, (\d+)\)\)", blk):
         names[m.group(1)] = (m.group(2), int(m.group(3)))
-    sm = re.search(r'luaL_checkudata\( ?L, (\d+), "([^"]*)"\)', blk)
+    sm = re.search(r'SH_this = \(\w+ \*\) luaL_checkudata\( ?L, (\d+), "([^"]*)"\)', blk)
     selfidx = int(sm.group(1)) if sm else None
     # the library call
     fn0 = group.fns[0]
@@ -181,31 +194,35 @@ def parse_emit(blk, group):
             break
     if ov is None:
         raise ParseError("call %s(%s) is none of the declared signatures" % (fn0.name, ", ".join(args)))
-    pops, ok = [], True
+    pops, ok, acls = [], True, []
     for a, p in zip(args, group.fns[ov].params):
         if a not in names:
             raise ParseError("argument %s of %s is never read from the stack" % (a, fn0.name))
         pops.append(names[a][1])
+        acls.append(objcls.get(a))
         ok = ok and names[a][0] == POPFN[p.kind]
     rm = re.findall(r"SH_nresult = (\d+);|return (\d+);", blk)
     nres = [int(a or b) for a, b in rm]
     if len(nres) != 1:
         raise ParseError("result count not found in %s" % blk[:200])
     pushes = len(re.findall(r"lua_push\w+\(|lua_newuserdata\(", blk))
-    return dict(ov=ov, self=selfidx, pops=pops, nres=nres[0], pushes=pushes, popfn_ok=ok,
+    return dict(ov=ov, self=selfidx, pops=pops, nres=nres[0], pushes=pushes, popfn_ok=ok, acls=acls,
                 extra_reads=sorted(set(names) - set(args)))
 
 
 def enc_emit(e):
-    return "ov=%d/self=%s/pops=%s/nres=%d" % (e["ov"], "-" if e["self"] is None else e["self"],
-                                             ",".join(map(str, e["pops"])) or "-", e["nres"])
+    t = "ov=%d/self=%s/pops=%s/nres=%d" % (e["ov"], "-" if e["self"] is None else e["self"],
+                                          ",".join(map(str, e["pops"])) or "-", e["nres"])
+    if any(c is not None for c in e.get("acls", [])):
+        t += "/acls=" + ",".join("-" if c is None else str(c) for c in e["acls"])
+    return t
 
 
-def parse_body(body, group):
+def parse_body(body, group, classes=()):
     """Function body -> (canonical skeleton string as the Lean driver prints it, [emit dicts])."""
     emits = []
     if "switch (SH_nargs)" not in body:
-        e = parse_emit(body, group)
+        e = parse_emit(body, group, classes)
         emits.append(e)
         return "single " + enc_emit(e), emits
     m = re.search(r"int SH_nargs = lua_gettop\(L\)(?: - (\d+))?;", body)
@@ -244,7 +261,7 @@ def parse_body(body, group):
                     if not cm:
                         raise ParseError("unreadable condition %r" % c)
                     checks.append("%d:%s" % (itype[int(cm.group(1))], TAGS[cm.group(2)]))
-                e = parse_emit(seg[mm.end():bend - 1], group)
+                e = parse_emit(seg[mm.end():bend - 1], group, classes)
                 emits.append(e)
                 branches.append("&".join(checks) + ">" + enc_emit(e))
                 i = bend
@@ -258,7 +275,7 @@ def parse_body(body, group):
             mm = re.compile(r"\s*\{").match(seg, i)
             if mm:
                 bend = _match_brace(seg, mm.end() - 1)
-                e = parse_emit(seg[mm.end():bend - 1], group)
+                e = parse_emit(seg[mm.end():bend - 1], group, classes)
                 emits.append(e)
                 branches.append("->" + enc_emit(e))
                 i = bend
@@ -365,6 +382,8 @@ def lua_convert(val, kind):
     """What lua_tointeger / lua_tonumber / lua_toboolean / lua_tostring answer for a pushed value
     (Lua 5.3 manual); None for a NULL string."""
     t = val[0]
+    if kind == "object":
+        return val[2] if t == "o" else None
     if kind == "bool":
         return not (t in ("z", "x") or (t == "b" and not val[1]))
     if kind in ("int", "float"):
@@ -400,6 +419,8 @@ def tag_of(val):
 
 
 def fmt_trace_arg(v, kind):
+    if kind == "object":
+        return "o:%d" % v
     if kind == "int":
         return "i:%d" % v
     if kind == "float":
@@ -427,7 +448,7 @@ def enc_arg(val):
 
 
 # ====================================================================== stacks
-OTHER = {"n": ["s", "b", "z", "t"], "b": ["n", "s", "z"], "s": ["n", "b", "z", "u"]}
+OTHER = {"n": ["s", "b", "z", "t"], "b": ["n", "s", "z"], "s": ["n", "b", "z", "u"], "u": ["n", "s", "z", "t"]}
 
 
 def value_for(r, tag, kind=None, ctr=[0]):
@@ -466,7 +487,7 @@ def shapes_for(r, group, thorough):
                 t = list(s)
                 t[i] = o
                 out.append(t)
-        out.append(list(s) + [r.choice("nbs")])
+        out.append(list(s) + [r.choice("nbsu")])
         if s:
             out.append(list(s[:-1]))
     mx = max(len(s) for s in sigs)
@@ -560,7 +581,35 @@ def plan_library(r, lib, located, thorough):
         return g.luaname if g.kind in ("free", "ctor") else g.luaname + "@" + g.cls
 
     def vals_for(g, shape, exp):
-        return [value_for(r, t, g.fns[exp[1]].params[i].kind if exp else None) for i, t in enumerate(shape)]
+        out = []
+        for i, t in enumerate(shape):
+            p = g.fns[exp[1]].params[i] if exp else None
+            if t == "u" and p is not None and p.kind == "object" and p.ocls in objs:
+                out.append(("o", objs[p.ocls][0], objs[p.ocls][1], p.ocls))     # an object of the demanded class
+            elif t == "u" and objs and r.random() < 0.5:
+                c = r.choice(sorted(objs))
+                out.append(("o", objs[c][0], objs[c][1], c))
+            else:
+                out.append(value_for(r, t, p.kind if p else None))
+        return out
+
+    def wrong_objects(g):
+        """For every offered signature with class-pointer arguments: the same stack with a userdata
+        without metatable and with an object of every other class at each such position."""
+        res = []
+        for ov, n in g.all_calls():
+            ps = g.fns[ov].params[:n]
+            shape = [p.tag for p in ps]
+            exp = expect_call(g, shape)
+            for i, p in enumerate(ps):
+                if p.kind != "object":
+                    continue
+                alts = [("f",)] + [("o", objs[c][0], objs[c][1], c) for c in sorted(objs) if c != p.ocls]
+                for a in alts:
+                    vals = vals_for(g, shape, exp)
+                    vals[i] = a
+                    res.append((vals, exp))
+        return res
 
     ctor_first = {}
     for g in lib.groups:
@@ -586,6 +635,9 @@ def plan_library(r, lib, located, thorough):
                 vals = vals_for(g, shape, exp)
                 plan.add("call %s %s" % (g.luaname, " ".join(enc_arg(v) for v in vals)),
                          dict(group=g, vals=vals, selfv=None, exp=exp))
+            for vals, exp in wrong_objects(g):
+                plan.add("call %s %s" % (g.luaname, " ".join(enc_arg(v) for v in vals)),
+                         dict(group=g, vals=vals, selfv=None, exp=exp))
         elif g.kind == "method":
             if g.cls not in objs:
                 continue
@@ -594,6 +646,9 @@ def plan_library(r, lib, located, thorough):
             for shape in shapes_for(r, g, thorough):
                 exp = expect_call(g, shape)
                 vals = vals_for(g, shape, exp)
+                plan.add("callm %s %s %s %s" % (meta_name, g.luaname, enc_arg(good), " ".join(enc_arg(v) for v in vals)),
+                         dict(group=g, vals=vals, selfv=good, exp=exp))
+            for vals, exp in wrong_objects(g):
                 plan.add("callm %s %s %s %s" % (meta_name, g.luaname, enc_arg(good), " ".join(enc_arg(v) for v in vals)),
                          dict(group=g, vals=vals, selfv=good, exp=exp))
             # wrong objects with an otherwise matching stack
@@ -649,6 +704,11 @@ def judge(meta, ans):
     single = len(g.all_calls()) == 1
     needs_self = g.kind in ("method", "dtor")
     must_error = exp is None or (needs_self and not self_ok(meta))
+    if exp is not None:
+        # the selected signature demands a userdata of the parameter's class
+        for p_, v_ in zip(g.fns[exp[1]].params[:exp[2]], meta["vals"]):
+            if p_.kind == "object" and not (v_[0] == "o" and v_[3] == p_.ocls):
+                must_error = True
     st = ans["status"]
     trace = ans.get("trace", [])
     if must_error:
@@ -837,6 +897,12 @@ def check_library(ctx, lib, d, emu_o, drv, r, thorough, stats, ok_lean):
             stats["shape_hist"][k] = stats["shape_hist"].get(k, 0) + 1
             if len(f.params) >= 5 and nd >= 2 and fd >= 4:
                 stats["wide_late_defaults"] += 1
+            for p_ in f.params:
+                if p_.default is not None:
+                    dv = p_.default_value()
+                    cls_ = "falsy" if (dv == 0 or dv == "" or dv is False) else "truthy"
+                    k2 = "%s %s" % (p_.kind, cls_)
+                    stats["default_hist"][k2] = stats["default_hist"].get(k2, 0) + 1
     funcs, regs, metas, modreg = split_module(text)
     classes = [c for c, _ in lib.classes]
     located = {}
@@ -850,7 +916,7 @@ def check_library(ctx, lib, d, emu_o, drv, r, thorough, stats, ok_lean):
             continue
         located[key] = (cfunc, meta_name)
         try:
-            canon, emits = parse_body(funcs[cfunc], g)
+            canon, emits = parse_body(funcs[cfunc], g, classes)
         except (ParseError, ValueError, KeyError) as e:
             canon, emits = "unparsed: %s" % e, []
         gen_reqs.append("gen %s %s" % (g.kind, g.enc()))
@@ -929,6 +995,11 @@ def check_library(ctx, lib, d, emu_o, drv, r, thorough, stats, ok_lean):
             stats["nonmatching"] += 1
         if meta.get("again"):
             stats["gc_twice"] += 1
+        if meta["exp"] is not None:
+            ps_ = g.fns[meta["exp"][1]].params[:meta["exp"][2]]
+            if any(p_.kind == "object" for p_ in ps_):
+                good_ = all(p_.kind != "object" or (v_[0] == "o" and v_[3] == p_.ocls) for p_, v_ in zip(ps_, meta["vals"]))
+                stats["class_arg_calls_right_class" if good_ else "class_arg_calls_wrong_class"] += 1
         verdict = judge(meta, ans)
         if verdict:
             kind, what = verdict
@@ -983,7 +1054,8 @@ def run(ctx):
         "tools/gen/luagen.py: the instrumented library is what the binding is linked against",
     ]
     ctx.cov["rule"] = ("functions/methods/constructors with 0..6 parameters of mixed Lua tags, defaults starting at every position, "
-                       "several defaulted trailing parameters (histograms in notes: shape_hist, arity_hist); "
+                       "several defaulted trailing parameters, default values 0 / 0.0 / false / \"\" as well as non-zero ones "
+                       "(histograms in notes: shape_hist, arity_hist, default_hist); "
                        "per generated library (one fixed + seeded random): every Lua name's emitted function is parsed and compared "
                        "with the model's skeleton; the binding is compiled against the emulator and every name is called with every "
                        "offered signature, one-tag-off variants, wrong counts and random shapes (methods also with wrong objects, "
@@ -1000,7 +1072,7 @@ def run(ctx):
     ]
     check_tables_ok = None
     stats = dict(groups=0, switch=0, single=0, gen_disagree=0, run_disagree=0, calls=0, matching=0, nonmatching=0,
-                 violations=0, known=0, libraries=0, reg_tables=0, reg_entries=0, gc_twice=0, wide_late_defaults=0, shape_hist={}, arity_hist={})
+                 violations=0, known=0, libraries=0, reg_tables=0, reg_entries=0, gc_twice=0, class_arg_calls_right_class=0, class_arg_calls_wrong_class=0, wide_late_defaults=0, shape_hist={}, arity_hist={}, default_hist={})
     d0 = common.scratch()
     try:
         emu_o = build_emulator(d0)
@@ -1033,6 +1105,11 @@ def run(ctx):
     for k, v in stats.items():
         ctx.note(k, dict(sorted(v.items())) if isinstance(v, dict) else v)
     # every offered signature (each arity from the first default up to all parameters) must have been driven
+    if stats["libraries"] and not all(stats["default_hist"].get(k) for k in ("int falsy", "float falsy", "string falsy", "bool falsy",
+                                                                             "int truthy", "float truthy", "string truthy", "bool truthy")):
+        ctx.tie_broken("lua-generator", "default values do not cover zero/non-zero for every kind: %s" % stats["default_hist"])
+    if stats["libraries"] and not (stats["class_arg_calls_right_class"] and stats["class_arg_calls_wrong_class"]):
+        ctx.tie_broken("lua-generator", "no call with a class-pointer argument (right and wrong class) was driven")
     if stats["libraries"] and stats["wide_late_defaults"] == 0:
         ctx.tie_broken("lua-generator", "no function with >= 5 parameters and >= 2 defaults starting at position >= 4 was generated")
 
